@@ -16,19 +16,28 @@ Inductive tok :=
 | TSoftbreak
 | TEmphasis (children : list tok)
 | TStrong (children : list tok)
-| TLink (image : bool) (children : list tok) (url : str) (title : option str) (has_title_key : bool) (ref : option (str * str)).
+| TLink (image : bool) (children : list tok) (url : str) (title : option str) (has_title_key : bool) (ref : option (str * str))
+| TExt (name : str) (children : list tok).   (* a token of an inline plugin: strikethrough, mark, insert, superscript, subscript *)
 
 Record flags := { in_image : bool; in_link : bool; in_emphasis : bool; in_strong : bool }.
 Definition flags0 : flags := {| in_image := false; in_link := false; in_emphasis := false; in_strong := false |}.
 
 Inductive irule := IEscape | ICodespan | IEmphasis | ILink | IAutoLink | IAutoEmail | IInlineHtml | ILinebreak | ISoftbreak
-                 | IPrecAutoLink | IPrecInlineHtml.
+                 | IPrecAutoLink | IPrecInlineHtml
+                 | IExt (i : nat).    (* the i-th rule registered by a plugin *)
+
+(* what the handler of a plugin rule does *)
+Inductive ext :=
+| XToEnd (name : str) (end_rx : rx)   (* formatting._parse_to_end: children = render(src[m.end() : end - 2]) *)
+| XScript (name : str)                (* formatting._parse_script: children = render(m.group(0)[1:-1].replace("\\ ", " ")) *)
+| XUrl.                               (* url.parse_url_link *)
 
 Definition irule_eqb (a b : irule) : bool :=
   match a, b with
   | IEscape, IEscape | ICodespan, ICodespan | IEmphasis, IEmphasis | ILink, ILink | IAutoLink, IAutoLink
   | IAutoEmail, IAutoEmail | IInlineHtml, IInlineHtml | ILinebreak, ILinebreak | ISoftbreak, ISoftbreak
   | IPrecAutoLink, IPrecAutoLink | IPrecInlineHtml, IPrecInlineHtml => true
+  | IExt a, IExt b => Nat.eqb a b
   | _, _ => false
   end.
 
@@ -37,6 +46,7 @@ Record icfg := {
   c_uni : uni;
   c_spec : irule -> rx;                 (* InlineParser.specification (with hard_wrap applied) *)
   c_rules : list irule;                 (* InlineParser.rules *)
+  c_ext : nat -> option ext;            (* the handlers of the plugin rules *)
   c_square : rx;                        (* _INLINE_SQUARE_BRACKET_RE *)
   c_label : rx;                         (* _INLINE_LINK_LABEL_RE *)
   c_bracket_start : rx;                 (* LINK_BRACKET_START *)
@@ -352,6 +362,27 @@ Definition handle_with (h : handler) (rk : irule) (m : mresult) (src : str) (fl 
           end
         end
       end
+  | IExt i =>
+    match c_ext C i with
+    | None => Exn
+    | Some (XToEnd name end_rx) =>
+      match re_search U end_rx src pos (length src) with
+      | None => Ok (None, [], fl)
+      | Some m1 =>
+        let end_pos := mend m1 in
+        do ch <- irender h (slice src pos (end_pos - 2)) fl;
+        Ok (Some end_pos, [TExt name ch], fl)
+      end
+    | Some (XScript name) =>
+      do ch <- irender h (replace [92; 32]%Z [32%Z] (slice marker 1 (length marker - 1))) fl;
+      Ok (Some pos, [TExt name ch], fl)
+    | Some XUrl =>
+      if in_link fl then Ok (Some pos, [TText marker], fl)
+      else match c_escape_url C marker with
+           | Some url => Ok (Some pos, [TLink false [TText marker] url None false None], fl)
+           | None => Exn
+           end
+    end
   | ILink =>
     let is_image := prefixb [33%Z] marker in
     if (is_image && in_image fl) || (negb is_image && in_link fl) then Ok (Some pos, [TText marker], fl)
